@@ -33,7 +33,10 @@ RULE = ("valid streams of 0-4 chunks (an empty chunk included) x one fault: inva
         "one; destination URIs with and without the leading slash; every invalid family x id representation {int8..int64, uint8..uint64, "
         "integral float64, Python-object ints} x container {DataFrame, dict of arrays, dict of lists} x API {create_cooler ordered / unordered / whole "
         "table, create} x count dtype, verdict decided by the value of the record as written; missing ids (float NaN, Int64 pd.NA: regression inputs of repaired D36), "
-        "an infinite id and a missing id / count column through every API x {DataFrame, dict}; distinct by case hash")
+        "an infinite id and a missing id / count column through every API x {DataFrame, dict}; every run under one combination of the optional creation arguments "
+        "{metadata none / {} / dict / list} x {assembly} x {h5opts} x {extra value column} x {dtypes} (+ max_merge for unordered), rotating through the "
+        "full cross (thorough: full cross on representative faults); merge_coolers and coarsen_cooler with a corrupted input as producers; "
+        "distinct by case hash")
 TRUSTED = ["h5py/HDF5 group and attribute semantics are observed (SHA of attrs+datasets per tracked group), modelled only as path -> {format, content id}"]
 ASSUMPTIONS = ["faults are Python exceptions at chunk boundaries (validator, iterator, range check), as the property states"]
 RESIDUE = ["a process killed inside an HDF5 write (torn file) is outside the model",
@@ -213,12 +216,14 @@ def apply_fault(stream, fault):
     return items[:k] + [None]
 
 
-def make_iter(items, chunkform, id_dtype="int64", count_dtype="int64"):
+def make_iter(items, chunkform, id_dtype="int64", count_dtype="int64", extra=False):
+    cols = [["count", "int", "int32", count_dtype]] + ([W_COL] if extra else [])
+
     def gen():
         for i, it in enumerate(items):
             if it is None:
                 raise InjectedError(f"iterator failed before chunk {i}")
-            yield G.make_chunk(it, [["count", "int", "int32", count_dtype]], chunkform, id_dtype)
+            yield G.make_chunk(with_extra(it) if extra else it, cols, chunkform, id_dtype)
     return gen()
 
 
@@ -266,6 +271,39 @@ def rep_supported(case):
     return True
 
 
+# ----------------------------------------------------------------------------- optional creation arguments
+# arguments that do not change the validity of the input: the verdict must not depend on them
+ARG_METADATA = [None, {}, {"k": [1, {"z": None}], "s": "x"}, [1, "two"]]
+ARG_ASSEMBLY = [None, "hg19"]
+ARG_H5OPTS = [None, {"compression": "lzf"}, {"compression": None}]
+ARG_COMBOS = [{"metadata": mi, "assembly": ai, "h5opts": hi_, "extra": ex, "dtypes": dt}
+              for mi in range(4) for ai in range(2) for hi_ in range(3) for ex in (False, True) for dt in (False, True)]
+W_COL = ["w", "float", "default", "float64"]
+
+
+def with_extra(rows):
+    return [[r[0], r[1], [r[2][0], ((r[0] + 2 * r[1]) % 5) * 4]] for r in rows]
+
+
+def arg_kwargs(args, allow_extra=True):
+    """keyword arguments of create / create_cooler / merge_coolers / coarsen_cooler for one combination"""
+    kw = {}
+    if not args:
+        return kw, False
+    if ARG_METADATA[args["metadata"]] is not None:
+        kw["metadata"] = ARG_METADATA[args["metadata"]]
+    if ARG_ASSEMBLY[args["assembly"]] is not None:
+        kw["assembly"] = ARG_ASSEMBLY[args["assembly"]]
+    if ARG_H5OPTS[args["h5opts"]] is not None:
+        kw["h5opts"] = dict(ARG_H5OPTS[args["h5opts"]])
+    extra = bool(args["extra"]) and allow_extra
+    if extra:
+        kw["columns"] = ["count", "w"]
+    if args["dtypes"]:
+        kw["dtypes"] = {"w": np.float32} if extra else {"count": np.int32}
+    return kw, extra
+
+
 # ----------------------------------------------------------------------------- one run
 _BEFORE = {}
 
@@ -284,13 +322,19 @@ def impl_run(case, tpl, workdir):
         _BEFORE[ck] = observe(path, paths)[0]
     before = _BEFORE[ck]
     uri = path if not dest else path + "::" + (pstr(dest)[1:] if case.get("uri_noslash") else pstr(dest))
+    if case.get("producer"):
+        return producer_run(case, path, uri, paths, before, workdir)
     kw = {"mode": mode, "symmetric_upper": case["symm"]}
     kw.update(case.get("opts", {}))
+    akw, extra = arg_kwargs(case.get("args"), allow_extra=not case.get("special"))
+    kw.update(akw)
     if case["ordered"]:
         kw["ordered"] = True
     else:
         kw["ordered"] = False
         kw["mergebuf"] = case.get("mergebuf", 20_000_000)
+        if case.get("max_merge") is not None:
+            kw["max_merge"] = case["max_merge"]
     if case.get("special") and case.get("form") == "frame":
         pixels = special_chunk(case["items"][0], case["special"], case["chunkform"])
         kw.pop("ordered", None)
@@ -298,12 +342,13 @@ def impl_run(case, tpl, workdir):
         pixels = make_special_iter(case["items"], case["special"], case["chunkform"])
     elif case.get("form") == "frame":     # a whole table (DataFrame or dict): create_cooler sorts it and hands it to create() as one chunk
         import pandas as pd
-        tbl = G.make_chunk(case["items"][0], [["count", "int", "int32", case.get("count_dtype", "int64")]],
+        tbl = G.make_chunk(with_extra(case["items"][0]) if extra else case["items"][0],
+                           [["count", "int", "int32", case.get("count_dtype", "int64")]] + ([W_COL] if extra else []),
                            "lists" if case["chunkform"] == "lists" else "dict", case.get("id_dtype", "int64"))
         pixels = pd.DataFrame(tbl) if case["chunkform"] == "df" else tbl
         kw.pop("ordered", None)
     else:
-        pixels = make_iter(case["items"], case["chunkform"], case.get("id_dtype", "int64"), case.get("count_dtype", "int64"))
+        pixels = make_iter(case["items"], case["chunkform"], case.get("id_dtype", "int64"), case.get("count_dtype", "int64"), extra)
     if case.get("api") == "create":     # cooler.create.create with the deprecated append flag: mode = "a" if append else "w"
         from cooler.create import create as _create
         kw.pop("ordered", None)
@@ -315,6 +360,38 @@ def impl_run(case, tpl, workdir):
     after, listing = observe(path, paths)
     opens, _ = G.guarded(lambda: cooler.Cooler(uri).info, 20)
     leftovers = sorted(fn for fn in os.listdir(workdir) if fn != "t.cool")
+    return {"result": "ok" if st == "ok" else G.err_kind_of_message(st, msg), "before": before, "after": after, "listing": listing,
+            "cooler_opens": opens == "ok", "leftovers": leftovers}
+
+
+def producer_run(case, path, uri, paths, before, workdir):
+    """merge_coolers / coarsen_cooler as the producer of the chunk stream: one input holds a record with an out-of-range
+    bin id (written raw), so the stream fails inside the destination's create() after some chunks"""
+    import cooler
+    import h5py
+    bins = G.bins_for(WIDTHS)
+    akw, _ = arg_kwargs(case.get("args"), allow_extra=False)
+    akw.pop("dtypes", None)
+    akw.pop("assembly", None)          # merge_coolers / coarsen_cooler take the assembly from their input and pass it on themselves
+    kw = dict(akw, mode=case["mode"])
+    px1 = {"bin1_id": np.array([0, 0, 1, 2, 3]), "bin2_id": np.array([0, 2, 1, 3, 3]), "count": np.array([1, 2, 3, 4, 5])}
+    px2 = {"bin1_id": np.array([0, 1, 2, 2]), "bin2_id": np.array([1, 3, 2, 3]), "count": np.array([7, 8, 9, 10])}
+    in1, in2 = str(workdir / "in1.cool"), str(workdir / "in2.cool")
+    cooler.create_cooler(in1, bins, px1)
+    cooler.create_cooler(in2, bins, px2)
+    if case["fault"] is not None:
+        with h5py.File(in2, "r+") as f:                   # corrupt a late record of the second input
+            f["pixels/bin2_id"][case["fault"][2]] = 1000
+    if case["producer"] == "merge":
+        fn = lambda: cooler.merge_coolers(uri, [in1, in2], mergebuf=case.get("mergebuf", 2), **kw)      # noqa: E731
+    else:
+        fn = lambda: cooler.coarsen_cooler(in2, uri, 2, chunksize=case.get("mergebuf", 2), **kw)        # noqa: E731
+    st, msg = G.guarded(fn, 60)
+    after, listing = observe(path, paths)
+    opens, _ = G.guarded(lambda: cooler.Cooler(uri).info, 20)
+    for fn_ in (in1, in2):
+        os.remove(fn_)
+    leftovers = sorted(x for x in os.listdir(workdir) if x != "t.cool")
     return {"result": "ok" if st == "ok" else G.err_kind_of_message(st, msg), "before": before, "after": after, "listing": listing,
             "cooler_opens": opens == "ok", "leftovers": leftovers}
 
@@ -513,6 +590,36 @@ def gen_cases(ctx):
                 scen, dest, mode, scope = TARGETS[ti]
                 cases.append({"scenario": scen, "dest": list(dest), "mode": mode, "in_scope": scope, "symm": True, "ordered": True, "api": "create",
                               "stream": si, "fault": list(fault) if fault else None, "items": apply_fault(BASE_STREAMS[si], fault), "chunkform": "dict"})
+    # merge_coolers / coarsen_cooler as producers (their failure reaches create() as a failing chunk of the stream)
+    k = 0
+    for producer in ("merge", "coarsen"):
+        for fault in (None, ["producer", "corrupt-input", 3], ["producer", "corrupt-input", 1]):
+            for ti in ((1, 0, 4, 2, 3) if thorough else (1, 0, 4)):
+                k += 1
+                scen, dest, mode, scope = TARGETS[ti]
+                cases.append({"scenario": scen, "dest": list(dest), "mode": mode, "in_scope": scope, "symm": True, "ordered": True, "rep_case": True,
+                              "producer": producer, "mergebuf": [2, 1, 100][k % 3], "stream": -2, "fault": fault,
+                              "items": [[]] if fault is None else [None], "chunkform": "dict"})
+    # optional creation arguments that do not change validity (metadata, assembly, h5opts, extra column, dtypes; max_merge for the
+    # unordered path): every case above runs under one combination, rotating through the full cross ...
+    for i, c in enumerate(cases):
+        c["args"] = dict(ARG_COMBOS[(i * 37) % len(ARG_COMBOS)])
+        if not c["ordered"]:
+            c["max_merge"] = [None, 1, 2][i % 3]
+    # ... and in the thorough tier the full cross on a set of representative faults x destinations
+    if thorough:
+        reps = [c for c in cases if c.get("stream") == 3 and not c.get("rep_case") and not c.get("opts") and c["dest"] in ([9], [], [3])
+                and (c["fault"] is None or c["fault"][0] == "raise" or (c["fault"][0] == "record" and c["fault"][3] == 0))]
+        seen = set()
+        for c in reps:
+            key = (tuple(c["dest"]), c["scenario"], c["mode"], str(c["fault"]), c["ordered"])
+            if key in seen or len(seen) >= 24:
+                continue
+            seen.add(key)
+            for combo in ARG_COMBOS:
+                c2 = dict(c)
+                c2["args"] = dict(combo)
+                cases.append(c2)
     return cases
 
 
@@ -535,6 +642,7 @@ def special_cases(ctx):
                     case["items"] = [[r for it in items for r in it]]
                 elif api == "create":
                     case["api"] = "create"
+                case["args"] = dict(ARG_COMBOS[(k * 41) % len(ARG_COMBOS)])
                 out.append(case)
     return out
 
